@@ -544,3 +544,16 @@ func splitComma(s string) []string {
 	}
 	return out
 }
+
+// ModelTcpipChecksum summarises github.com/google/gopacket/layers.tcpipChecksum (same fold argument).
+func ModelTcpipChecksum(data []byte, csum uint32) uint16 {
+	length := len(data) - 1
+	for i := 0; i < length; i += 2 {
+		csum += uint32(data[i]) << 8
+		csum += uint32(data[i+1])
+	}
+	if len(data)%2 == 1 {
+		csum += uint32(data[length]) << 8
+	}
+	return ^uint16(fold16(fold16(csum)))
+}
